@@ -8,7 +8,12 @@
 //!   S  the property evaluated in Coq from the exact-rational world, independently of the search model: verified
 //!      closure reachb, verified walk check, reachable set, Bellman-Ford least costs with stability check (RR.line_S)
 //! `probe` prints the deterministic families.
-use serde_json::json;
+use routee_compass::app::compass::config::compass_app_builder::CompassAppBuilder;
+use routee_compass_core::model::network::Graph;
+use routee_compass_core::model::state::state_model::StateModel;
+use serde_json::{json, Value};
+use std::path::Path;
+use std::sync::Arc;
 use verif_harness::searchkit::*;
 use verif_harness::*;
 
@@ -20,7 +25,7 @@ struct Ctx {
 }
 
 fn header() -> String {
-    format!("{}\nFrom RC Require Import Model.Reach Model.ReachRun.", HEADER)
+    format!("{}\nFrom RC Require Import Base.Json Model.Units Model.Frontier Model.Reach Model.ReachRun Model.ReachReal.\nImport Frontier.", HEADER)
 }
 
 /// identical to RR.summary
@@ -263,6 +268,366 @@ fn long_haul_cases() -> Vec<(String, World, Query)> {
     out
 }
 
+// ------------------------------------------------------------------------------------------ real_world family
+// The graph is written to CSV files and LOADED by Graph::from_files; the frontier model is a REAL one (vehicle
+// restrictions, road classes, combined) built by CompassAppBuilder::build_frontier_model_service from generated files
+// and instantiated with the query's parameters.  Vertex-oriented forward searches, edge-level restrictions only
+// (edge-oriented start edges and reverse/turn restrictions are C04's known-finding classes).
+
+#[derive(Clone, Debug)]
+enum Cfg {
+    None,
+    RoadClass { lookup: Vec<u8> },
+    /// rows of the CSV: edge_id, restriction_name, restriction_value, restriction_unit
+    Vehicle { rows: Vec<(usize, String, f64, String)> },
+    Combined(Vec<Cfg>),
+}
+fn fbits(x: f64) -> String {
+    format!("{:016x}", x.to_bits())
+}
+fn funbits(s: &str) -> f64 {
+    f64::from_bits(u64::from_str_radix(s, 16).unwrap())
+}
+/// JSON with floats as bit patterns ({"$f": "hex"}), so that a replay file reproduces them exactly
+fn enc(v: &Value) -> Value {
+    match v {
+        Value::Number(n) if !(n.is_i64() || n.is_u64()) => json!({ "$f": fbits(n.as_f64().unwrap()) }),
+        Value::Array(a) => Value::Array(a.iter().map(enc).collect()),
+        Value::Object(m) => Value::Object(m.iter().map(|(k, v)| (k.clone(), enc(v))).collect()),
+        _ => v.clone(),
+    }
+}
+fn dec(v: &Value) -> Value {
+    match v {
+        Value::Object(m) if m.len() == 1 && m.contains_key("$f") => json!(funbits(m["$f"].as_str().unwrap())),
+        Value::Array(a) => Value::Array(a.iter().map(dec).collect()),
+        Value::Object(m) => Value::Object(m.iter().map(|(k, v)| (k.clone(), dec(v))).collect()),
+        _ => v.clone(),
+    }
+}
+fn cfg_to_json(c: &Cfg) -> Value {
+    match c {
+        Cfg::None => json!({"t": "none"}),
+        Cfg::RoadClass { lookup } => json!({"t": "rc", "lookup": lookup}),
+        Cfg::Vehicle { rows } => json!({"t": "veh", "rows": rows.iter().map(|(e, n, v, u)| json!([e, n, fbits(*v), u])).collect::<Vec<_>>(),
+                                        "rows_text": rows.iter().map(|(e, n, v, u)| format!("{} {} {} {}", e, n, v, u)).collect::<Vec<_>>()}),
+        Cfg::Combined(inner) => json!({"t": "comb", "inner": inner.iter().map(cfg_to_json).collect::<Vec<_>>()}),
+    }
+}
+fn cfg_from_json(v: &Value) -> Cfg {
+    match v["t"].as_str().unwrap() {
+        "none" => Cfg::None,
+        "rc" => Cfg::RoadClass { lookup: serde_json::from_value(v["lookup"].clone()).unwrap() },
+        "veh" => Cfg::Vehicle {
+            rows: v["rows"].as_array().unwrap().iter()
+                .map(|r| (r[0].as_u64().unwrap() as usize, r[1].as_str().unwrap().to_string(), funbits(r[2].as_str().unwrap()), r[3].as_str().unwrap().to_string()))
+                .collect(),
+        },
+        _ => Cfg::Combined(v["inner"].as_array().unwrap().iter().map(cfg_from_json).collect()),
+    }
+}
+fn coq_cfg(c: &Cfg) -> String {
+    match c {
+        Cfg::None => "CNoRestriction".into(),
+        Cfg::RoadClass { lookup } => format!("(CRoadClass {} [])", coq_list(lookup, |x| x.to_string())),
+        Cfg::Vehicle { rows } => format!("(CVehicle FN {})", coq_list(rows, |(e, n, v, u)| format!("({}, {}, {}, {})", e, coq_string(n), coq_f64(*v), coq_string(u)))),
+        Cfg::Combined(inner) => format!("(CCombined FN {})", coq_list(inner, coq_cfg)),
+    }
+}
+fn cfg_kind(c: &Cfg) -> &'static str {
+    match c {
+        Cfg::None => "none",
+        Cfg::RoadClass { .. } => "road_class",
+        Cfg::Vehicle { .. } => "vehicle",
+        Cfg::Combined(_) => "combined",
+    }
+}
+/// the configuration JSON the application would read, with the tables written to files under `dir`
+fn config_json(c: &Cfg, dir: &Path, k: &mut usize) -> Value {
+    *k += 1;
+    match c {
+        Cfg::None => json!({"type": "no_restriction"}),
+        Cfg::RoadClass { lookup } => {
+            let p = dir.join(format!("classes{}.txt", k));
+            std::fs::write(&p, lookup.iter().map(|x| format!("{}\n", x)).collect::<String>()).unwrap();
+            json!({"type": "road_class", "road_class_input_file": p.to_str().unwrap()})
+        }
+        Cfg::Vehicle { rows } => {
+            let p = dir.join(format!("restrictions{}.csv", k));
+            let mut body = String::from("edge_id,restriction_name,restriction_value,restriction_unit\n");
+            for (e, n, v, u) in rows {
+                body.push_str(&format!("{},{},{:?},{}\n", e, n, v, u));
+            }
+            std::fs::write(&p, body).unwrap();
+            json!({"type": "vehicle_restriction", "vehicle_restriction_input_file": p.to_str().unwrap()})
+        }
+        Cfg::Combined(inner) => json!({"type": "combined", "models": inner.iter().map(|c| config_json(c, dir, k)).collect::<Vec<_>>()}),
+    }
+}
+
+#[derive(Clone)]
+struct RCase {
+    family: String,
+    w: World,
+    /// the distance column of the edge list file (independent of the cost table)
+    dist: Vec<f64>,
+    q: Query,
+    cfg: Cfg,
+    /// the query as the frontier model service sees it (vehicle_parameters, road_classes)
+    fquery: Value,
+}
+
+/// loads the network from generated CSV files, builds the real frontier model, runs the real search
+fn run_real_world(rc: &RCase, dir: &Path) -> Outcome {
+    let rc2 = rc.clone();
+    let d = dir.to_path_buf();
+    let (tx, rx) = std::sync::mpsc::channel();
+    std::thread::spawn(move || {
+        let o = catch(move || {
+            std::fs::create_dir_all(&d).unwrap();
+            let vfile = d.join("vertices.csv");
+            let efile = d.join("edges.csv");
+            let mut vb = String::from("vertex_id,x,y\n");
+            for v in 0..rc2.w.n {
+                vb.push_str(&format!("{},{},{}\n", v, v as f64 * 0.01, 0.0));
+            }
+            std::fs::write(&vfile, vb).unwrap();
+            let mut eb = String::from("edge_id,src_vertex_id,dst_vertex_id,distance\n");
+            for (i, (a, b)) in rc2.w.edges.iter().enumerate() {
+                eb.push_str(&format!("{},{},{},{:?}\n", i, a, b, rc2.dist[i]));
+            }
+            std::fs::write(&efile, eb).unwrap();
+            let graph = match Graph::from_files(&efile, &vfile, None, None, Some(false)) {
+                Ok(g) => g,
+                Err(_) => return Outcome::status_only("err:load"),
+            };
+            let mut k = 0;
+            let cj = config_json(&rc2.cfg, &d, &mut k);
+            let service = match CompassAppBuilder::default().build_frontier_model_service(&cj) {
+                Ok(s) => s,
+                Err(_) => return Outcome::status_only("err:build"),
+            };
+            let model = match service.build(&rc2.fquery, Arc::new(StateModel::empty())) {
+                Ok(m) => m,
+                Err(_) => return Outcome::status_only("err:build"),
+            };
+            let mut si = build_instance(&rc2.w);
+            si.directed_graph = Arc::new(graph);
+            si.frontier_model = model;
+            run_on_instance(&si, &rc2.q)
+        })
+        .unwrap_or_else(|_| Outcome::status_only("Panic"));
+        let _ = tx.send(o);
+    });
+    match rx.recv_timeout(std::time::Duration::from_millis(WATCHDOG_MS)) {
+        Ok(o) => o,
+        Err(_) => Outcome::status_only("Hang"),
+    }
+}
+
+fn rcase_to_json(rc: &RCase) -> Value {
+    json!({"family": rc.family, "world": world_to_json(&rc.w), "query": query_to_json(&rc.q), "cfg": cfg_to_json(&rc.cfg), "fquery": enc(&rc.fquery),
+           "fquery_text": rc.fquery.to_string(), "dist_bits": rc.dist.iter().map(|x| fbits(*x)).collect::<Vec<_>>(),
+           "dist_text": rc.dist.iter().map(|x| format!("{:?}", x)).collect::<Vec<_>>().join(" ")})
+}
+fn rcase_from_json(c: &Value) -> RCase {
+    RCase {
+        family: c["family"].as_str().unwrap_or("replay").to_string(),
+        w: world_from_json(&c["world"]),
+        dist: c["dist_bits"].as_array().unwrap().iter().map(|x| funbits(x.as_str().unwrap())).collect(),
+        q: query_from_json(&c["query"]),
+        cfg: cfg_from_json(&c["cfg"]),
+        fquery: dec(&c["fquery"]),
+    }
+}
+
+fn add_rcase(cx: &mut Ctx, rc: &RCase, dir: &Path) {
+    let id = cx.st.next_id();
+    let d = dir.join(format!("rw{}", id));
+    let o = run_real_world(rc, &d);
+    let _ = std::fs::remove_dir_all(&d);
+    let text = summary(&rc.q, &o);
+    let fr = format!("{} {}", coq_cfg(&rc.cfg), coq_json(&rc.fquery));
+    let kq = NumKind::Q;
+    let terms = vec![
+        format!("RW.line_M {} {}%Z {} {} {}", default_fuel(&rc.w), id, fr, coq_world(&rc.w, NumKind::F), coq_query(&rc.q, NumKind::F)),
+        format!(
+            "RW.line_S {}%Z {} {} {} {} {} {} {}",
+            id,
+            fr,
+            coq_world(&rc.w, kq),
+            coq_query(&rc.q, kq),
+            coq_string(&o.status),
+            coq_list(&o.trees, |t| coq_list(t, |b| format!("({}, {})", b.v, if b.state.is_finite() { coq_q(b.state) } else { "(0 # 1)%Q".to_string() }))),
+            coq_list(&o.routes, |r| coq_list(r, |h| h.edge.to_string())),
+            coq_string(&text)
+        ),
+    ];
+    let mut desc = rcase_to_json(rc);
+    desc["id"] = json!(id);
+    desc["impl_short"] = json!(text.chars().take(200).collect::<String>());
+    let st = &mut cx.st;
+    let fam_class = rc.family.split('#').next().unwrap_or(&rc.family).to_string();
+    st.count(&format!("family:{}", fam_class));
+    st.count(&format!("status:{}", o.status));
+    st.count(&format!("real_frontier:{}", cfg_kind(&rc.cfg)));
+    st.count(&format!("alg:{}", alg_name(&rc.q.alg)));
+    st.count(&format!("target:{}", if rc.q.target.is_some() { "some" } else { "none" }));
+    if rc.dist.iter().any(|x| *x == 0.0) {
+        st.count("loaded_graph_has_zero_length_edge");
+    }
+    let rl = o.routes.iter().map(|r| r.len()).max().unwrap_or(0);
+    let ts = o.trees.iter().map(|t| t.len()).max().unwrap_or(0);
+    if o.status == "nopath" || (rc.q.target.is_none() && ts >= 2) || rl >= 2 {
+        st.mark_nontrivial(&rcase_to_json(rc).to_string());
+    }
+    st.case(terms, vec![format!("I {} {}", id, text)], desc);
+}
+
+/// exact SI size of one unit (meters, kilograms): used only to PLACE generated limits 20 % below / 25 % above the
+/// vehicle's quantity; independent of the implementation's conversion code
+const DIST_UNITS: [(&str, f64); 5] = [("meters", 1.0), ("kilometers", 1000.0), ("miles", 1609.344), ("inches", 0.0254), ("feet", 0.3048)];
+const WEIGHT_UNITS: [(&str, f64); 3] = [("pounds", 0.45359237), ("tons", 907.18474), ("kg", 1.0)];
+/// (restriction name, vehicle_parameters field, is weight, per axle)
+const KINDS: [(&str, &str, bool, bool); 6] = [
+    ("maximum_height", "height", false, false),
+    ("maximum_width", "width", false, false),
+    ("maximum_length", "total_length", false, false),
+    ("maximum_trailer_length", "trailer_length", false, false),
+    ("maximum_total_weight", "total_weight", true, false),
+    ("maximum_weight_per_axle", "total_weight", true, true),
+];
+
+/// two parts {0,1} and {2,3,4} joined only by the connector edge 2 (1 -> 2); vertex 5 isolated.
+/// `extra`: an optional second connector (edge 6, 1 -> 2, dearer)
+fn two_parts(extra: bool, connector_dist: f64) -> (World, Vec<f64>) {
+    let mut es = vec![(0, 1), (1, 0), (1, 2), (2, 3), (3, 2), (3, 4)];
+    let mut cs = vec![1.5, 1.25, 2.0, 1.0, 1.0, 3.0];
+    let mut ds = vec![120.0, 120.0, connector_dist, 80.5, 80.5, 300.0];
+    if extra {
+        es.push((1, 2));
+        cs.push(9.0);
+        ds.push(45.0);
+    }
+    (World::new(6, es, cs), ds)
+}
+
+fn real_world_cases(thorough: bool) -> Vec<RCase> {
+    let mut out: Vec<RCase> = vec![];
+    let conn_dists = [0.0, 1e-9, 12.5, 0.0, 1e-3];
+    let mut rot = 0usize;
+    let mut push = |out: &mut Vec<RCase>, family: String, extra: bool, cfg: Cfg, fquery: Value, rot: &mut usize| {
+        *rot += 1;
+        let (mut w, dist) = two_parts(extra, conn_dists[*rot % conn_dists.len()]);
+        let alg = [Alg::Dijkstra, Alg::AStar(Some(1.0)), Alg::AStar(None), Alg::AStar(Some(3.0))][*rot % 4];
+        if alg != Alg::Dijkstra {
+            w.h = vec![3.0, 2.5, 1.0, 0.5, 0.0, 0.0];
+        }
+        let target = match *rot % 3 {
+            0 => Some(4),
+            1 => None,
+            _ => Some(3),
+        };
+        let q = Query { alg, dir: Dir::Forward, orient: Orient::Vertex, source: 0, target, query_wf: None };
+        out.push(RCase { family, w, dist, q, cfg, fquery });
+    };
+    let std_vehicle = || {
+        json!({"height": [4.0, "meters"], "width": [2.5, "meters"], "total_length": [16.5, "meters"], "trailer_length": [13.6, "meters"],
+               "total_weight": [36000.0, "kg"], "number_of_axles": 5})
+    };
+    // (d) the loader: zero-length / tiny connector as the only link, no restriction at all
+    for cd in [0.0, 1e-9, 1e-3, 12.5] {
+        for (alg, target) in [(Alg::Dijkstra, Some(4)), (Alg::Dijkstra, None), (Alg::AStar(Some(1.0)), Some(4)), (Alg::AStar(Some(3.0)), None), (Alg::Dijkstra, Some(5))] {
+            let (mut w, dist) = two_parts(false, cd);
+            if alg != Alg::Dijkstra {
+                w.h = vec![3.0, 2.5, 1.0, 0.5, 0.0, 0.0];
+            }
+            out.push(RCase { family: format!("real_world_loader#connector_distance:{:?}", cd), w, dist, q: Query { alg, dir: Dir::Forward, orient: Orient::Vertex, source: 0, target, query_wf: None }, cfg: Cfg::None, fquery: json!({}) });
+        }
+    }
+    // the paper example of the seed: 13 ft bridge, 4 m / 3.9 m vehicle
+    for (h, tag) in [(4.0, "4m_under_13ft"), (3.9, "3.9m_under_13ft")] {
+        let mut v = std_vehicle();
+        v["height"] = json!([h, "meters"]);
+        push(&mut out, format!("real_world_vehicle#{}", tag), false, Cfg::Vehicle { rows: vec![(2, "maximum_height".into(), 13.0, "feet".into())] }, json!({ "vehicle_parameters": v }), &mut rot);
+    }
+    // (a) every pair of (vehicle unit, limit unit), limit 20 % below (the connector is refused) and 25 % above (admitted)
+    let mut kind_rot = 0usize;
+    for is_weight in [false, true] {
+        let nu = if is_weight { 3 } else { 5 };
+        for vu in 0..nu {
+            for ru in 0..nu {
+                let kinds: Vec<usize> = if thorough {
+                    (0..6).filter(|k| KINDS[*k].2 == is_weight).collect()
+                } else {
+                    kind_rot += 1;
+                    let ks: Vec<usize> = (0..6).filter(|k| KINDS[*k].2 == is_weight).collect();
+                    vec![ks[kind_rot % ks.len()]]
+                };
+                for k in kinds {
+                    for (side, factor) in [("below", 0.8), ("above", 1.25)] {
+                        let (name, field, _, per_axle) = KINDS[k];
+                        let (vunit, vsize) = if is_weight { WEIGHT_UNITS[vu] } else { DIST_UNITS[vu] };
+                        let (runit, rsize) = if is_weight { WEIGHT_UNITS[ru] } else { DIST_UNITS[ru] };
+                        // a plausible vehicle quantity in SI, expressed in the vehicle's unit
+                        let si_value = if is_weight { 36000.0 } else { [4.0, 2.5, 16.5, 13.6][k % 4] };
+                        let vval = si_value / vsize;
+                        let axles = 5.0;
+                        let quantity_in_limit_unit = si_value / rsize / if per_axle { axles } else { 1.0 };
+                        let limit = quantity_in_limit_unit * factor;
+                        let mut v = std_vehicle();
+                        v[field] = json!([vval, vunit]);
+                        let extra = k % 2 == 1;
+                        push(
+                            &mut out,
+                            format!("real_world_vehicle#{}:{}_vs_{}:{}", name, vunit, runit, side),
+                            extra,
+                            Cfg::Vehicle { rows: vec![(2, name.to_string(), limit, runit.to_string())] },
+                            json!({ "vehicle_parameters": v }),
+                            &mut rot,
+                        );
+                    }
+                }
+            }
+        }
+    }
+    // (b) road classes with ids >= 64: the connector's class is congruent modulo 64 to a permitted class
+    for base in [0u8, 1, 5, 63] {
+        for k in 1..=3u8 {
+            let alias = base + 64 * k;
+            // ordinary edges: class `base`; connector: class `alias`
+            let lookup = |conn: u8, extra: Option<u8>| {
+                let mut l = vec![base, base, conn, base, base, base];
+                if let Some(x) = extra {
+                    l.push(x);
+                }
+                l
+            };
+            push(&mut out, format!("real_world_road_class#alias_refused:{}_{}", base, alias), false, Cfg::RoadClass { lookup: lookup(alias, None) }, json!({ "road_classes": [base] }), &mut rot);
+            push(&mut out, format!("real_world_road_class#alias_listed:{}_{}", base, alias), false, Cfg::RoadClass { lookup: lookup(alias, None) }, json!({ "road_classes": [base, alias] }), &mut rot);
+            // the base class is NOT permitted on the connector, its alias is permitted elsewhere
+            push(&mut out, format!("real_world_road_class#base_refused:{}_{}", base, alias), true, Cfg::RoadClass { lookup: vec![alias, alias, base, alias, alias, alias, base] }, json!({ "road_classes": [alias] }), &mut rot);
+            push(&mut out, format!("real_world_road_class#second_connector:{}_{}", base, alias), true, Cfg::RoadClass { lookup: lookup(alias, Some(base)) }, json!({ "road_classes": [base] }), &mut rot);
+        }
+    }
+    push(&mut out, "real_world_road_class#no_list".into(), false, Cfg::RoadClass { lookup: vec![1, 1, 200, 1, 1, 1] }, json!({}), &mut rot);
+    push(&mut out, "real_world_road_class#other_class_refused".into(), false, Cfg::RoadClass { lookup: vec![1, 1, 7, 1, 1, 1] }, json!({ "road_classes": [1, 2, 3] }), &mut rot);
+    // (c) combined: both must admit the connector
+    for (h, classes, tag) in [(4.0, json!([1, 65]), "height_refuses"), (3.9, json!([1]), "class_refuses"), (3.9, json!([1, 65]), "both_admit"), (4.0, json!([1]), "both_refuse")] {
+        let mut v = std_vehicle();
+        v["height"] = json!([h, "meters"]);
+        push(
+            &mut out,
+            format!("real_world_combined#{}", tag),
+            false,
+            Cfg::Combined(vec![Cfg::Vehicle { rows: vec![(2, "maximum_height".into(), 13.0, "feet".into()), (5, "maximum_total_weight".into(), 40.0, "tons".into())] }, Cfg::RoadClass { lookup: vec![1, 1, 65, 1, 1, 1] }]),
+            json!({ "vehicle_parameters": v, "road_classes": classes }),
+            &mut rot,
+        );
+    }
+    out
+}
+
 fn rand_costs(rng: &mut Rng, m: usize) -> Vec<f64> {
     if rng.chance(2, 3) {
         gen_costs(rng, m, CostFamily::TieFree)
@@ -381,6 +746,10 @@ fn main() {
             let o = run_query_watchdog(&w, &q, WATCHDOG_MS);
             println!("{:34} {:?} {:?} {:?} s={} t={:?} forbid={:?} :: {}", name, q.alg, q.dir, q.orient, q.source, q.target, w.forbid, summary(&q, &o));
         }
+        for rc in real_world_cases(true) {
+            let o = run_real_world(&rc, &std::env::temp_dir().join(format!("c05_probe_{}", std::process::id())));
+            println!("{:60} {:?} t={:?} dist[2]={:?} :: {}", rc.family, rc.q.alg, rc.q.target, rc.dist[2], summary(&rc.q, &o));
+        }
         std::process::exit(0);
     }
     let thorough = a.extra.iter().any(|x| x == "--thorough");
@@ -389,6 +758,12 @@ fn main() {
         cx.st.full = true;
         let v: serde_json::Value = serde_json::from_str(&std::fs::read_to_string(p).unwrap()).unwrap();
         let case = &v["case"];
+        if !case["cfg"].is_null() {
+            let rc = rcase_from_json(case);
+            add_rcase(&mut cx, &rc, &a.out);
+            cx.st.finish();
+            std::process::exit(0);
+        }
         let w = world_from_json(&case["world"]);
         let q = query_from_json(&case["query"]);
         add_case(&mut cx, "replay", &w, &q, json!({}));
@@ -405,6 +780,9 @@ fn main() {
     }
     for (name, w, q) in long_haul_cases() {
         add_case(&mut cx, &name, &w, &q, json!({}));
+    }
+    for rc in real_world_cases(thorough) {
+        add_rcase(&mut cx, &rc, &a.out);
     }
     for (name, w, q) in boundary_cases() {
         if in_class(&w) {
